@@ -38,7 +38,7 @@ func ghostTimerPrefix(kg uint16) []byte { return []byte{byte(kg >> 8), byte(kg),
 //@   loop 0:
 //@     invariant pqShape(pq)
 //@     invariant forall(func(k string) bool { return has(pq.cache.tree.set, k) == exists(0, idx_, func(p int) bool { return string(seqat(coll_, p).Key()) == k }) })
-//@     invariant len(pq.cache.tree.set) > 0 || idx_ == 0
+//@     invariant (len(pq.cache.tree.set) > 0 || idx_ == 0) && loadedAll
 
 // Peek/Pop hand out the smallest pending timer of the key group, wherever it is stored.
 //@ func KeyGroupPriorityQueue.Peek
@@ -70,7 +70,7 @@ func ghostTimerPrefix(kg uint16) []byte { return []byte{byte(kg >> 8), byte(kg),
 //@   loop 0:
 //@     invariant pqShape(pq) && same(pq.db.live, old(pq.db.live))
 //@     invariant forall(func(k string) bool { return has(pq.cache.tree.set, k) ==> pqTimer(pq, k) || k == string(data) })
-//@     invariant pq.allDataInCache ==> forall(func(k string) bool { return pqTimer(pq, k) ==> has(pq.cache.tree.set, k) })
+//@     invariant pq.allDataInCache ==> forall(func(k string) bool { return pqTimer(pq, k) || k == string(data) ==> has(pq.cache.tree.set, k) })
 //@     invariant !pq.allDataInCache ==> forall(func(k string, c string) bool { return (pqTimer(pq, k) || k == string(data)) && !has(pq.cache.tree.set, k) && has(pq.cache.tree.set, c) ==> c < k })
 
 //@ func KeyGroupPriorityQueue.Delete
